@@ -34,6 +34,7 @@ type client struct {
 	u     uhppote.IUHPPOTE
 	fake  *drv.Fake
 	reply []byte
+	sn    uint32 // when non-zero: the serial number calls are addressed to
 }
 
 func newClient() *client { return newClientCfg(0) }
@@ -95,14 +96,22 @@ func observe(c *client, op *spec.Op, args spec.Args) (o spec.Observed) {
 		}
 		return
 	}
-	return ops.Invoke(c.u, op.Name, serial, args)
+	return ops.Invoke(c.u, op.Name, c.serial(), args)
+}
+
+// serial: the controller the client's calls are addressed to (the serial-number family varies it)
+func (c *client) serial() uint32 {
+	if c.sn != 0 {
+		return c.sn
+	}
+	return serial
 }
 
 func check(r *vk.Run, c *client, op *spec.Op, args spec.Args, reply []byte) {
 	c.reply = reply
 	c.fake.Calls = c.fake.Calls[:0]
 	c.fake.Delivered = c.fake.Delivered[:0]
-	sn := serial
+	sn := c.serial()
 	if op.Broadcast {
 		// discovery reports whatever serial the reply carries
 		sn = binary.LittleEndian.Uint32(reply[4:8])
@@ -209,7 +218,7 @@ func patterns(f spec.Field) [][]byte {
 	case spec.IPv4:
 		return [][]byte{{0, 0, 0, 0}, {255, 255, 255, 255}, {1, 2, 3, 4}}
 	case spec.AddrPort:
-		return [][]byte{{0, 0, 0, 0, 0, 0}, {255, 255, 255, 255, 255, 255}, {1, 2, 3, 4, 5, 6}}
+		return [][]byte{{0, 0, 0, 0, 0, 0}, {255, 255, 255, 255, 255, 255}, {1, 2, 3, 4, 5, 6}, {0, 0, 0, 0, 0x61, 0xea}, {0, 0, 0, 0, 0xff, 0xff}, {1, 2, 3, 4, 0, 0}, {255, 255, 255, 255, 0x60, 0xea}}
 	case spec.MAC:
 		return [][]byte{{0, 0, 0, 0, 0, 0}, {255, 255, 255, 255, 255, 255}, {1, 2, 3, 4, 5, 6}}
 	}
@@ -494,6 +503,50 @@ func main() {
 				}
 			}
 		}
+	}
+
+	// serial numbers: what a reply means does not depend on which controller it comes from. Every
+	// operation (unconfigured client: any serial number takes the broadcast-to path) addressed to each
+	// of 99 serial numbers - every leading decimal digit of the nine-digit form (the model series digit),
+	// powers of two and their complements, the extremes - answered with the baseline reply and with each
+	// reply field in turn set to each of its boundary patterns
+	{
+		serials := []uint32{1, 2, 99999999, 0xfffffffe, 0xffffffff, 0x00ffffff, 423187757, 757781324, 303986753}
+		for d := uint32(1); d <= 9; d++ {
+			serials = append(serials, d*100000000, d*100000000+5419896, d*100000000+99999999)
+		}
+		for i := 0; i < 32; i++ {
+			serials = append(serials, 1<<uint(i), ^(uint32(1) << uint(i)))
+		}
+		var nops []*spec.Op
+		for i := range spec.Ops {
+			if op := &spec.Ops[i]; !op.NoReply && !op.Broadcast {
+				nops = append(nops, op)
+			}
+		}
+		vk.Parallel(len(nops), func(i int) {
+			op := nops[i]
+			c := newClient()
+			var n int64
+			for _, sn := range serials {
+				c.sn = sn
+				base := ops.BaselineReply(op)
+				args := ops.EchoArgs(op, base)
+				valid := spec.EncodeReply(op, sn, base)
+				check(r, c, op, args, valid)
+				n++
+				for _, f := range op.Reply {
+					for _, pat := range patterns(f) {
+						b := append([]byte{}, valid...)
+						copy(b[f.Off:], pat)
+						check(r, c, op, args, b)
+						n++
+					}
+				}
+			}
+			r.Count(n)
+			distinct.Add(n)
+		})
 	}
 
 	// request echoes: a set-time reply that repeats (or differs by a second or a day from) the wall
